@@ -65,6 +65,7 @@ type Link struct {
 	// library's HTTP POST). A failed write then says nothing about delivery.
 	AmbiguousCancel bool
 	RefusedOpens    []uint64 // ids of header-only envelopes a strict link refused for a done context
+	failedReads     int      // reads attempted after the read side had failed
 
 	mu       sync.Mutex
 	inflight []*pendingWrite
@@ -296,7 +297,18 @@ func (l *Link) read(ctx context.Context) (*Rpc, error) {
 		l.mu.Lock()
 		if l.readErr != nil {
 			err := l.readErr
+			l.failedReads++
+			spinning := l.failedReads == 200
 			l.mu.Unlock()
+			if spinning {
+				// a reader that comes back for more two hundred times after the transport's
+				// read side has failed is not going to notice: a busy loop in the code under
+				// test (it has no scheduling point, so without this the run would hang)
+				l.env.Violate("C09", "read-failure-ignored", "transport.Read", "the transport's Read has failed (%v) and was called again 200 times: the reader ignores the failure and spins", err)
+				l.env.Violate("C10", "read-failure-ignored", "transport.Read", "the transport's Read has failed (%v) and was called again 200 times: the reader ignores the failure and spins", err)
+				l.env.Violate("C19", "read-failure-ignored", "transport.Read", "the transport's Read has failed (%v) and was called again 200 times: the reader ignores the failure and spins", err)
+				<-l.env.tornDown() // park the spinner for the rest of the run
+			}
 			return nil, err
 		}
 		if l.Cfg.Strict && ctx.Err() != nil {
